@@ -50,3 +50,6 @@ Record run_tables := {
 }.
 Inductive add_failure_form :=
 | AllFindingsUnfixedLine0.   (* failures.append(file); add_unfixed_findings(get_all_findings(), reason, 0) *)
+Inductive find_semgrep_form := OneRunAllRules.
+Inductive semgrep_scope_form := PrefilterFilesOrDirectory.   (* files_for_rule(id) if a prefilter exists else [] (-> the directory) *)
+Inductive semgrep_detector_form := ScanPrefilterFiles.
